@@ -63,7 +63,7 @@ CHECKS = {
     design='7/C12',
     note='"equal" in SWITCH is Python equality (1 = TRUE = 1.0), which the property text leaves open; text truthiness '
          '(non-empty) is modelled but not claimed by the property.',
-    technique='Coq proof (induction over argument lists / nested values) + ast translator for AND/OR/XOR/NOT/IF (shape terms proved equal to the model) + exhaustive small-tuple correspondence'),
+    technique='Coq proof (induction over argument lists / nested values) + ast translators for AND/OR/XOR/NOT/IF and the IS* predicates (shape terms proved equal to the model) + exhaustive small-tuple correspondence'),
  'C18': dict(
     text='Coq theorems over a transcription of CHOOSE, INDEX, MATCH for arrays of any size: CHOOSE = vi or an error; INDEX '
          '= the addressed element inside, #REF! - never another element - outside, whole row/column for 0 or omitted; '
